@@ -42,7 +42,7 @@ CHECKS["C08"] = dict(engine="E-SCHED", cat="model_checking",
                      text="An import hook rewrites teaal at load time so that every iteration over a set asks the explorer for its order. For ~45-200 specifications (several partitioned ranks, flattening, several independent partitionings of one tensor, every kind of metrics binding, cascades, the accelerator files) every set-order choice sequence within d deviations of the canonical order (d=1 quick, d=2 thorough; complete when small) is compiled; each distinct text must be closed and compute the Einsum on all presence patterns, and acceptance must not depend on the order. Real interpreters under 6-24 PYTHONHASHSEED values compile each specification twice (identical texts required), their texts get the same oracles, and their recorded orders are replayed under the controlled scheduler and must reproduce the real text byte for byte (ownership proof).",
                      note="deviation-bounded on large order spaces (completed bound reported); dict/networkx orders are functions of insertion order and hence of the owned choices; str()/repr() of sets are not rewritten (a leak would surface as replay divergence = HARNESS-INCOMPLETE)", tech="stateless deviation-bounded schedule exploration of the implementation under a controlled scheduler, with record/replay validation against real schedules")
 CHECKS["C10"] = dict(engine="E-SCHED", cat="model_checking",
-                     text="The controlled topological sort owns every tie-break of FlowGraph.__sort; the real __hoist and translator run on each order. Default tie-break: every specification of the compile-only corpus (order invariants + closure of the emitted text); a slice of ~70-300 specifications with rich graphs (partitioned, dynamic, flattened, metrics with every binding kind, cascades, accelerator files): every linear extension within d deviations (d=1 quick, d=2 thorough, complete when small), each checked for order invariants, closed text, equal acceptance across tie-breaks and correct results on the reference model.",
+                     text="The controlled topological sort owns every tie-break of FlowGraph.__sort; the real __hoist and translator run on each order. Default tie-break: every specification of the compile-only corpus (order invariants + closure of the emitted text); a slice of ~70-300 specifications with rich graphs (partitioned, dynamic, flattened, metrics with every binding kind, cascades, accelerator files): every linear extension within d deviations (d=1 quick, d=2 thorough, complete when small), each checked for order invariants, closed text, equal acceptance across tie-breaks and correct results on the reference model; specifications on which every explored order crashes (not a ValueError) are explored to 2 deviations in both tiers.",
                      note="deviation-bounded (completed bound reported per specification); the controlled Kahn scheduler reaches every linear extension and reproduces networkx's order when always answering 0", tech="stateless deviation-bounded schedule exploration of the implementation under a controlled scheduler")
 HWREF = "hardware alphabet of mc/spec/hw.py (one architecture skeleton, <= 2-3 component bindings per Einsum); stand-in Metrics/Traffic/Compute/Format/*Intersector models; reference HiFiber model"
 CHECKS["C11"] = dict(engine="E-SPEC x E-DATA", cat="exploration",
